@@ -51,6 +51,7 @@ func genC10(seed uint64) *Scenario {
 	bp := func(b bool) *bool { return &b }
 	sharedMeta := r.Chance(850) // swarm: one Swagger meta-schema object for all validations of the run (10x faster after the first) / each document's own
 	reuse := r.Chance(500)      // swarm: the validations of this run share one loaded document object / load the bytes afresh each time
+	fromFile := r.Chance(300)   // swarm: the document is loaded from a file (it then has a file path; $ref resolution takes the file-based branches)
 	churn := func() {
 		for i := 0; i < r.Intn(3); i++ {
 			if r.Chance(250) {
@@ -80,7 +81,7 @@ func genC10(seed uint64) *Scenario {
 		if r.Chance(200) {
 			add(Op{Kind: KSetCOE, COE: bp(r.Chance(500))})
 		}
-		op := Op{Kind: KSpec, Doc: doc, OrderSeed: r.U64() | 1, YAML: r.Chance(150), Reorder: r.Chance(150), ReuseDoc: reuse && r.Chance(800), SharedMeta: sharedMeta}
+		op := Op{Kind: KSpec, Doc: doc, OrderSeed: r.U64() | 1, YAML: r.Chance(150), Reorder: r.Chance(150), ReuseDoc: reuse && r.Chance(800), SharedMeta: sharedMeta, FromFile: fromFile}
 		switch x := r.Intn(10); {
 		case x < 4:
 			op.COE = bp(false)
@@ -101,8 +102,8 @@ func genC10(seed uint64) *Scenario {
 		// the twin (same document plus warning-only conditions) under both settings: its errors must be those of the document
 		sc.Params = map[string]any{"twin_of": doc}
 		for _, coe := range []bool{true, false} {
-			add(Op{Kind: KSpec, Doc: doc, COE: bp(coe), OrderSeed: r.U64() | 1, SharedMeta: sharedMeta, Role: "twin-base"})
-			add(Op{Kind: KSpec, Doc: twin, COE: bp(coe), OrderSeed: r.U64() | 1, SharedMeta: sharedMeta, Role: "twin"})
+			add(Op{Kind: KSpec, Doc: doc, COE: bp(coe), OrderSeed: r.U64() | 1, SharedMeta: sharedMeta, FromFile: fromFile, Role: "twin-base"})
+			add(Op{Kind: KSpec, Doc: twin, COE: bp(coe), OrderSeed: r.U64() | 1, SharedMeta: sharedMeta, FromFile: fromFile, Role: "twin"})
 		}
 	}
 	sc.Tasks = [][]Op{ops}
